@@ -371,9 +371,30 @@ def events_kept(radio, agg):
     return n
 
 
+def shadows_distinct(radio, agg):
+    """R08.6 (constructor): the cached copies of TX_ADDR, RX_ADDR_P0 and RX_ADDR_P1 are three buffers - open_tx_pipe() / open_rx_pipe()
+    update them in place and compare them with each other's registers' addresses; two names for one buffer make an update of one register's
+    copy silently change the other's, and the next 'is the register already on this address?' test answers wrongly"""
+    init = radio.cls.lookup("__init__")[1]
+    n = 0
+    for out in [o for o in radio.init_outs if o.kind == "return"][:2]:
+        refs = {}
+        for r in (0x0A, 0x0B, 0x10):
+            v = radio.shadow_value(out.state, r)
+            if isinstance(v, Ref):
+                refs.setdefault(v.ident, []).append(r)
+        n += 1
+        shared = [sorted(rs) for rs in refs.values() if len(rs) > 1]
+        agg.add("R08.6", init, "the cached copies of TX_ADDR, RX_ADDR_P0 and RX_ADDR_P1 are separate buffers", not shared,
+                "after the constructor the cached copies of registers %s are one and the same object" % (", ".join("/".join(regname(r) for r in rs) for rs in shared)))
+    return n
+
+
 def run_for(ck, radio, agg, lite=False):
     p0f = radio.user_pipe0_field()
     events_kept(radio, agg)
+    if not lite:
+        shadows_distinct(radio, agg)
     sequences(radio, agg, p0f, lite)
     n1 = listen_rx(radio, agg, p0f, lite)
     n2 = listen_tx(radio, agg, p0f, lite)
